@@ -299,7 +299,27 @@ func ruleAnyGate(c *Ctx) []Obligation {
 			if fn == nil || !isCtor || idx >= len(call.Args) {
 				return true
 			}
-			if sel, ok := ast.Unparen(call.Args[idx]).(*ast.SelectorExpr); ok {
+			arg := ast.Unparen(call.Args[idx])
+			// a once-assigned local standing for node.X
+			if id, ok := arg.(*ast.Ident); ok {
+				if obj := cp.TypesInfo.Uses[id]; obj != nil {
+					var defs []ast.Expr
+					ast.Inspect(fd.Body, func(m ast.Node) bool {
+						if as, ok := m.(*ast.AssignStmt); ok && len(as.Lhs) == len(as.Rhs) {
+							for i, l := range as.Lhs {
+								if lid, ok := l.(*ast.Ident); ok && (cp.TypesInfo.Defs[lid] == obj || cp.TypesInfo.Uses[lid] == obj) {
+									defs = append(defs, as.Rhs[i])
+								}
+							}
+						}
+						return true
+					})
+					if len(defs) == 1 {
+						arg = ast.Unparen(defs[0])
+					}
+				}
+			}
+			if sel, ok := arg.(*ast.SelectorExpr); ok {
 				if t := cp.TypesInfo.TypeOf(sel.X); t != nil {
 					if nm := recvNamed(t); nm != nil {
 						validated[nm] = true
@@ -336,6 +356,51 @@ func ruleAnyGate(c *Ctx) []Obligation {
 			return true
 		})
 		return res
+	}
+	// a helper that only validated builders call (transitively) counts as part of them
+	declOf := map[*types.Func]*ast.FuncDecl{}
+	infoOf := map[*ast.FuncDecl]*types.Info{}
+	callers := map[*types.Func][]*ast.FuncDecl{}
+	for _, p := range c.All {
+		for _, fd := range AllFuncDecls(p) {
+			if fd.Body == nil {
+				continue
+			}
+			infoOf[fd] = p.TypesInfo
+			if fn, ok := p.TypesInfo.Defs[fd.Name].(*types.Func); ok {
+				declOf[fn] = fd
+			}
+		}
+	}
+	for fd, pi := range infoOf {
+		fd := fd
+		ast.Inspect(fd.Body, func(n ast.Node) bool {
+			if call, ok := n.(*ast.CallExpr); ok {
+				if fn := CalleeOf(pi, call); fn != nil && declOf[fn] != nil && declOf[fn] != fd {
+					callers[fn] = append(callers[fn], fd)
+				}
+			}
+			return true
+		})
+	}
+	var builtBy func(pi *types.Info, fd *ast.FuncDecl, depth int) string
+	builtBy = func(pi *types.Info, fd *ast.FuncDecl, depth int) string {
+		if t := buildsValidated(pi, fd); t != "" {
+			return t
+		}
+		fn, _ := pi.Defs[fd.Name].(*types.Func)
+		if depth >= 3 || fn == nil || len(callers[fn]) == 0 {
+			return ""
+		}
+		res := ""
+		for _, cfd := range callers[fn] {
+			t := builtBy(infoOf[cfd], cfd, depth+1)
+			if t == "" {
+				return ""
+			}
+			res = t
+		}
+		return res + " (through its only callers)"
 	}
 	// every setter of a gate field
 	seen := map[string]int{}
@@ -390,7 +455,7 @@ func ruleAnyGate(c *Ctx) []Obligation {
 					} else {
 						o.Status, o.Detail = Discharged, "inside the check itself, used only for the recursive calls on function parameter types (arguments are validated where the function is called)"
 					}
-				} else if t := buildsValidated(pi, fd); t != "" {
+				} else if t := builtBy(pi, fd, 0); t != "" {
 					o.Status, o.Detail = Discharged, how + " in a function that builds " + t + ", for which the compiler emits the cast instruction"
 				} else {
 					o.Status, o.Detail = Violated, how + " in a function that builds none of the runtime-validated constructs (" + strings.Join(vnames, ", ") + "): a value whose type contains `any` is accepted here although nothing checks it at runtime"
